@@ -1,6 +1,446 @@
 package main
 
+import (
+	"fmt"
+	"go/ast"
+	"go/token"
+	"sort"
+	"strconv"
+	"strings"
+)
+
+// Extraction kinds of the cbfs area (follow-up wp-c19b: write-back and presentation). All of them
+// drop the receiver / local variable names, so a rename does not change the fact.
+//
+//	cbfs_switchstr  T.String      -> List (Nat × String): the (case constant, returned literal) pairs of its
+//	                                 switch, sorted by the constant (the order of the cases does not matter)
+//	cbfs_fields     T             -> List String: the field names of the struct, in declaration order
+//	cbfs_keyedlit   F             -> List String: "Key=expr" of the first keyed composite literal in F, the
+//	                                 receiver prefix removed from expr
+//	cbfs_records    NewImage      -> List (Nat × String × String × String × String): one row per RegisterFileReader
+//	                                 call of the package (and one with type 2^32 for the fallback constructor used
+//	                                 by NewImage), sorted by type: (type, constructor, record type, what its Write
+//	                                 emits, the arguments of recString in its String)
+func recvName(fd *ast.FuncDecl) string {
+	if fd.Recv != nil && len(fd.Recv.List) == 1 && len(fd.Recv.List[0].Names) == 1 {
+		return fd.Recv.List[0].Names[0].Name
+	}
+	return ""
+}
+
+// recvType: the (struct) type name of the receiver
+func recvType(fd *ast.FuncDecl) string {
+	if fd.Recv == nil || len(fd.Recv.List) != 1 {
+		return ""
+	}
+	t := fd.Recv.List[0].Type
+	if s, ok := t.(*ast.StarExpr); ok {
+		t = s.X
+	}
+	if id, ok := t.(*ast.Ident); ok {
+		return id.Name
+	}
+	return ""
+}
+
+func typeNameOf(e ast.Expr) string {
+	if s, ok := e.(*ast.StarExpr); ok {
+		e = s.X
+	}
+	if id, ok := e.(*ast.Ident); ok {
+		return id.Name
+	}
+	return ""
+}
+
+// lookupSel resolves the selector `name` (a field, or a method when call is set) on the named type tn by
+// Go's rule for promoted fields and methods: the shallowest depth at which it is declared, unique there.
+// It returns the canonical path (embedded fields spelled out) and the name of the result type.
+func lookupSel(p *pkgInfo, tn, name string, call bool) ([]string, string, bool) {
+	type node struct {
+		tn     string
+		prefix []string
+	}
+	level := []node{{tn, nil}}
+	seen := map[string]bool{}
+	for depth := 0; depth < 6 && len(level) > 0; depth++ {
+		type match struct {
+			path []string
+			res  string
+		}
+		var ms []match
+		var next []node
+		for _, nd := range level {
+			if seen[nd.tn] {
+				continue
+			}
+			seen[nd.tn] = true
+			if call {
+				if fd, ok := p.funcs[nd.tn+"."+name]; ok {
+					res := ""
+					if fd.Type.Results != nil && len(fd.Type.Results.List) > 0 {
+						res = typeNameOf(fd.Type.Results.List[0].Type)
+					}
+					ms = append(ms, match{append(append([]string(nil), nd.prefix...), name+"()"), res})
+				}
+			}
+			st, ok := p.types[nd.tn].(*ast.StructType)
+			if !ok {
+				continue
+			}
+			for _, f := range st.Fields.List {
+				ft := typeNameOf(f.Type)
+				if len(f.Names) == 0 { // embedded
+					if ft == "" {
+						continue
+					}
+					if !call && ft == name {
+						ms = append(ms, match{append(append([]string(nil), nd.prefix...), name), ft})
+					}
+					next = append(next, node{ft, append(append([]string(nil), nd.prefix...), ft)})
+					continue
+				}
+				if call {
+					continue
+				}
+				for _, n := range f.Names {
+					if n.Name == name {
+						ms = append(ms, match{append(append([]string(nil), nd.prefix...), name), ft})
+					}
+				}
+			}
+		}
+		if len(ms) == 1 {
+			return ms[0].path, ms[0].res, true
+		}
+		if len(ms) > 1 {
+			return nil, "", false // ambiguous: does not compile
+		}
+		level = next
+	}
+	return nil, "", false
+}
+
+// selText: an expression that is a chain of selectors / method calls on the receiver, as its CANONICAL
+// path from the receiver's type (promoted fields and methods spelled out: r.Size and r.File.Size are both
+// "File.FileHeader.Size" on a RawRecord, but r.Size is "StageHeader.Size" on a LegacyStageRecord). A string
+// literal is quoted; anything else is its source text with the receiver prefix removed.
+func selText(p *pkgInfo, e ast.Expr, recv string, recvT string) string {
+	if l, ok := e.(*ast.BasicLit); ok {
+		return l.Value
+	}
+	type seg struct {
+		name string
+		call bool
+	}
+	var segs []seg
+	cur := e
+	okChain := true
+	for okChain {
+		switch x := cur.(type) {
+		case *ast.CallExpr:
+			sel, ok := x.Fun.(*ast.SelectorExpr)
+			if !ok || len(x.Args) != 0 {
+				okChain = false
+				break
+			}
+			segs = append([]seg{{sel.Sel.Name, true}}, segs...)
+			cur = sel.X
+		case *ast.SelectorExpr:
+			segs = append([]seg{{x.Sel.Name, false}}, segs...)
+			cur = x.X
+		case *ast.Ident:
+			if x.Name != recv || recv == "" {
+				okChain = false
+				break
+			}
+			tn := recvT
+			var path []string
+			for _, sg := range segs {
+				pp, res, ok := lookupSel(p, tn, sg.name, sg.call)
+				if !ok {
+					okChain = false
+					break
+				}
+				path = append(path, pp...)
+				tn = res
+			}
+			if okChain {
+				return strings.Join(path, ".")
+			}
+		default:
+			okChain = false
+		}
+	}
+	t := exprText(p.fset, e)
+	if recv != "" && strings.HasPrefix(t, recv+".") {
+		return t[len(recv)+1:]
+	}
+	return t
+}
+
+// writeDesc: what a Write method emits: "Write:FData", "WriteLE:StageHeader+Write:Data", …
+func writeDesc(p *pkgInfo, fd *ast.FuncDecl) string {
+	var out []string
+	recv := recvName(fd)
+	ast.Inspect(fd.Body, func(n ast.Node) bool {
+		if c, ok := n.(*ast.CallExpr); ok {
+			if id, ok := c.Fun.(*ast.Ident); ok && (id.Name == "Write" || id.Name == "WriteLE") && len(c.Args) == 2 {
+				out = append(out, id.Name+":"+selText(p, c.Args[1], recv, recvType(fd)))
+			}
+		}
+		return true
+	})
+	return strings.Join(out, "+")
+}
+
+// stringDesc: the arguments of the first recString call of a String method, receiver removed;
+// plus "+segs" when further recString calls follow (the payload's segment lines)
+func stringDesc(p *pkgInfo, fd *ast.FuncDecl) string {
+	recv := recvName(fd)
+	var calls []*ast.CallExpr
+	ast.Inspect(fd.Body, func(n ast.Node) bool {
+		if c, ok := n.(*ast.CallExpr); ok {
+			if id, ok := c.Fun.(*ast.Ident); ok && id.Name == "recString" {
+				calls = append(calls, c)
+			}
+		}
+		return true
+	})
+	if len(calls) == 0 {
+		return "?"
+	}
+	var as []string
+	for _, a := range calls[0].Args {
+		as = append(as, selText(p, a, recv, recvType(fd)))
+	}
+	d := strings.Join(as, ",")
+	if len(calls) > 1 {
+		d += "+segs"
+	}
+	return d
+}
+
 func init() {
+	extraKinds["cbfs_switchstr"] = func(em *emitter, p *pkgInfo, it Item) {
+		name := "switch_" + leanName(it.Name)
+		fd, ok := p.funcs[it.Name]
+		if !ok || fd.Body == nil {
+			em.fail(Item{Kind: it.Kind, Name: it.Name, As: name}, "List (Nat × String)", "[]", "function not found")
+			return
+		}
+		type srow struct {
+			v uint32
+			s string
+		}
+		var rows []srow
+		bad := false
+		ast.Inspect(fd.Body, func(n ast.Node) bool {
+			cc, ok := n.(*ast.CaseClause)
+			if !ok || len(cc.List) == 0 {
+				return true
+			}
+			var lit string
+			found := false
+			for _, st := range cc.Body {
+				if r, ok := st.(*ast.ReturnStmt); ok && len(r.Results) == 1 {
+					if l, ok := r.Results[0].(*ast.BasicLit); ok && l.Kind == token.STRING {
+						lit, _ = strconv.Unquote(l.Value)
+						found = true
+					}
+				}
+			}
+			if !found {
+				bad = true
+				return true
+			}
+			for _, e := range cc.List {
+				v, ok := p.eval(e, 0)
+				if !ok {
+					bad = true
+					continue
+				}
+				rows = append(rows, srow{uint32(v), leanStr(lit)})
+			}
+			return true
+		})
+		if bad || len(rows) == 0 {
+			em.fail(Item{Kind: it.Kind, Name: it.Name, As: name}, "List (Nat × String)", "[]", "switch is not a table of constant cases returning literals")
+			return
+		}
+		// the order of the cases of a switch over constants does not matter: sorted by value
+		sort.SliceStable(rows, func(i, j int) bool { return rows[i].v < rows[j].v })
+		var ss []string
+		for _, r := range rows {
+			ss = append(ss, fmt.Sprintf("(%d, %s)", r.v, r.s))
+		}
+		fmt.Fprintf(&em.b, "def %s : List (Nat × String) := [%s]\n\n", name, strings.Join(ss, ", "))
+	}
+	extraKinds["cbfs_fields"] = func(em *emitter, p *pkgInfo, it Item) {
+		name := "fields_" + leanName(it.Name)
+		st, ok := p.types[it.Name].(*ast.StructType)
+		if !ok {
+			em.fail(Item{Kind: it.Kind, Name: it.Name, As: name}, "List String", "[]", "struct type not found")
+			return
+		}
+		var out []string
+		for _, f := range st.Fields.List {
+			for _, n := range f.Names {
+				out = append(out, n.Name)
+			}
+			if len(f.Names) == 0 {
+				out = append(out, exprText(p.fset, f.Type))
+			}
+		}
+		fmt.Fprintf(&em.b, "def %s : List String := %s\n\n", name, strList(out))
+	}
+	extraKinds["cbfs_keyedlit"] = func(em *emitter, p *pkgInfo, it Item) {
+		name := "keyedlit_" + leanName(it.Name)
+		fd, ok := p.funcs[it.Name]
+		if !ok || fd.Body == nil {
+			em.fail(Item{Kind: it.Kind, Name: it.Name, As: name}, "List String", "[]", "function not found")
+			return
+		}
+		recv := recvName(fd)
+		var out []string
+		done := false
+		ast.Inspect(fd.Body, func(n ast.Node) bool {
+			if cl, ok := n.(*ast.CompositeLit); ok && !done && len(cl.Elts) > 0 {
+				if _, ok := cl.Elts[0].(*ast.KeyValueExpr); !ok {
+					return true
+				}
+				for _, el := range cl.Elts {
+					if kv, ok := el.(*ast.KeyValueExpr); ok {
+						out = append(out, exprText(p.fset, kv.Key)+"="+selText(p, kv.Value, recv, recvType(fd)))
+					}
+				}
+				done = true
+			}
+			return true
+		})
+		if !done {
+			em.fail(Item{Kind: it.Kind, Name: it.Name, As: name}, "List String", "[]", "no keyed composite literal")
+			return
+		}
+		fmt.Fprintf(&em.b, "def %s : List String := %s\n\n", name, strList(out))
+	}
+	extraKinds["cbfs_records"] = func(em *emitter, p *pkgInfo, it Item) {
+		name := "records"
+		failIt := Item{Kind: it.Kind, Name: it.Name, As: name}
+		// constructor -> record type: the first composite literal with a type name in its body
+		recOf := func(ctor string) (string, bool) {
+			fd, ok := p.funcs[ctor]
+			if !ok || fd.Body == nil {
+				return "", false
+			}
+			t := ""
+			ast.Inspect(fd.Body, func(n ast.Node) bool {
+				if cl, ok := n.(*ast.CompositeLit); ok && t == "" {
+					if id, ok := cl.Type.(*ast.Ident); ok {
+						t = id.Name
+					}
+				}
+				return true
+			})
+			return t, t != ""
+		}
+		row := func(typ uint64, ctor string) (string, bool) {
+			rt, ok := recOf(ctor)
+			if !ok {
+				return "", false
+			}
+			w, ok1 := p.funcs[rt+".Write"]
+			s, ok2 := p.funcs[rt+".String"]
+			if !ok1 || !ok2 || w.Body == nil || s.Body == nil {
+				return "", false
+			}
+			return fmt.Sprintf("(%d, %s, %s, %s, %s)", typ, leanStr(ctor), leanStr(rt), leanStr(writeDesc(p, w)), leanStr(stringDesc(p, s))), true
+		}
+		type reg struct {
+			typ uint64
+			row string
+		}
+		var regs []reg
+		bad := ""
+		for _, f := range p.files {
+			ast.Inspect(f, func(n ast.Node) bool {
+				c, ok := n.(*ast.CallExpr)
+				if !ok {
+					return true
+				}
+				id, ok := c.Fun.(*ast.Ident)
+				if !ok || id.Name != "RegisterFileReader" || len(c.Args) != 1 {
+					return true
+				}
+				u, ok := c.Args[0].(*ast.UnaryExpr)
+				if !ok {
+					bad = "RegisterFileReader argument is not &SegReader{…}"
+					return true
+				}
+				cl, ok := u.X.(*ast.CompositeLit)
+				if !ok {
+					bad = "RegisterFileReader argument is not &SegReader{…}"
+					return true
+				}
+				var typ uint64
+				ctor := ""
+				okT := false
+				for _, el := range cl.Elts {
+					kv, ok := el.(*ast.KeyValueExpr)
+					if !ok {
+						continue
+					}
+					switch exprText(p.fset, kv.Key) {
+					case "Type":
+						v, ok := p.eval(kv.Value, 0)
+						typ, okT = uint64(uint32(v)), ok
+					case "New":
+						ctor = exprText(p.fset, kv.Value)
+					}
+				}
+				if !okT || ctor == "" {
+					bad = "SegReader literal without constant Type / New"
+					return true
+				}
+				r, ok := row(typ, ctor)
+				if !ok {
+					bad = "constructor " + ctor + ": record type, Write or String not found"
+					return true
+				}
+				regs = append(regs, reg{typ, r})
+				return true
+			})
+		}
+		// the fallback of NewImage: &SegReader{…, New: NewUnknownRecord}
+		if fd, ok := p.funcs[it.Name]; ok && fd.Body != nil {
+			ast.Inspect(fd.Body, func(n ast.Node) bool {
+				if cl, ok := n.(*ast.CompositeLit); ok && exprText(p.fset, cl.Type) == "SegReader" {
+					for _, el := range cl.Elts {
+						if kv, ok := el.(*ast.KeyValueExpr); ok && exprText(p.fset, kv.Key) == "New" {
+							if r, ok := row(1<<32, exprText(p.fset, kv.Value)); ok {
+								regs = append(regs, reg{1 << 32, r})
+							} else {
+								bad = "fallback constructor not resolved"
+							}
+						}
+					}
+				}
+				return true
+			})
+		}
+		if bad != "" || len(regs) == 0 {
+			em.fail(failIt, "List (Nat × String × String × String × String)", "[]", "registration table: "+bad)
+			return
+		}
+		sort.Slice(regs, func(i, j int) bool { return regs[i].typ < regs[j].typ })
+		var rows []string
+		for _, r := range regs {
+			rows = append(rows, r.row)
+		}
+		fmt.Fprintf(&em.b, "def %s : List (Nat × String × String × String × String) := [\n  %s]\n\n", name, strings.Join(rows, ",\n  "))
+	}
+
+
 	items := []Item{
 		{Kind: "strconst", Name: "FileMagic"},
 		{Kind: "varexpr", Name: "Endian"},
@@ -42,6 +482,31 @@ func init() {
 		Item{Kind: "assigns", Name: "LegacyStageRecord.Read"},
 		Item{Kind: "assigns", Name: "NewFile"},
 		Item{Kind: "assigns", Name: "Image.WriteFile"},
+		// follow-up wp-c19b: the write-back …
+		Item{Kind: "cbfs_records", Name: "NewImage"},
+		Item{Kind: "builtins", Name: "Image.Update"},
+		Item{Kind: "calls", Name: "Image.Update", Arg: "Write"},
+		Item{Kind: "calls", Name: "Write", Arg: "binary.Write"},
+		Item{Kind: "calls", Name: "WriteLE", Arg: "binary.Write"},
+		Item{Kind: "const", Name: "MasterHeaderLen"},
+		// … and the presentation: format strings, name tables, JSON field order
+		Item{Kind: "strlits", Name: "recString"},
+		Item{Kind: "strlits", Name: "Image.String"},
+		Item{Kind: "strlits", Name: "PayloadRecord.String"},
+		Item{Kind: "strlits", Name: "FileType.String"},
+		Item{Kind: "cbfs_switchstr", Name: "FileType.String"},
+		Item{Kind: "cbfs_switchstr", Name: "Compression.String"},
+		Item{Kind: "cbfs_switchstr", Name: "SegmentType.String"},
+		Item{Kind: "strlits", Name: "Compression.String"},
+		Item{Kind: "strlits", Name: "SegmentType.String"},
+		Item{Kind: "cbfs_fields", Name: "mImage"},
+		Item{Kind: "cbfs_fields", Name: "mFile"},
+		Item{Kind: "cbfs_fields", Name: "mPayloadRecord"},
+		Item{Kind: "cbfs_fields", Name: "mPayloadHeader"},
+		Item{Kind: "cbfs_keyedlit", Name: "Image.MarshalJSON"},
+		Item{Kind: "cbfs_keyedlit", Name: "File.MarshalJSON"},
+		Item{Kind: "cbfs_keyedlit", Name: "PayloadRecord.MarshalJSON"},
+		Item{Kind: "cbfs_keyedlit", Name: "PayloadHeader.MarshalJSON"},
 	)
 	specs = append(specs, Spec{Area: "Cbfs", Pkg: "pkg/cbfs", Items: items})
 }
